@@ -1,0 +1,25 @@
+//go:build verif
+
+package rdbrestore
+
+// Contracts for the verification machinery in /verif (build tag "verif").
+//   recvErrs  number of Receive calls on the target connection that returned an error
+
+//@ func client.Redis.Flush(self) (err)
+//@   trusted abstract target connection
+
+//@ func client.Redis.Receive(self) (reply, err)
+//@   trusted abstract target connection: recvErrs counts the replies that were errors
+//@   modifies recvErrs
+//@   ensures counted: (err != nil ==> recvErrs == old(recvErrs) + 1) && (err == nil ==> recvErrs == old(recvErrs))
+
+// A batch of pipelined commands is reported as applied only if every reply was read and none was an error.
+//@ func flushAndCheckReply
+//@   arith int
+//@   properties C04
+//@   ghost var recvErrs mathint
+//@   requires nonnil: cli != nil
+//@   modifies recvErrs
+//@   ensures all_replies_ok: result == nil ==> recvErrs == old(recvErrs)
+//@   loop 1:
+//@     invariant none_failed: recvErrs == old(recvErrs)
